@@ -133,4 +133,76 @@ PROPS = {
         'trusted_base': ['verif hook steppers for join/unite (construct the real Discipline without starting main)'],
         'assumptions': [],
     },
+    'C08': {
+        'lean_targets': ['Cqos.Props.C08'],
+        'theorems': ['Cqos.C08.e_step', 'Cqos.C08.e_run', 'Cqos.C08.c08_copy', 'Cqos.C08.c08_nocopy',
+                     'Cqos.C08.c08_await_only_release', 'Cqos.C08.c08_v1_frozen', 'Cqos.C08.c08_cap'],
+        'runs': [{'cmd': 'jstepper', 'args': ['-family', 'mixed']}],
+        'monitor_prefix': ['C08'],
+        'level': 'proof',
+        'level_text': ('Lean theorems on the ownership model of the batching machine (memory identities: buffer = 0, inputs < 10^6, '
+                       'clones fresh; event log of emissions, buffer writes and releases), for every action list: copy mode - every '
+                       'emitted slice has a fresh, pairwise distinct identity, so no write (all target the buffer) and no later output '
+                       'touches it; no-copy - between an emission and its release the log has no write and no emission and only the '
+                       'release (v1: Stop) is enabled; v1 - after unreleased/done the log never grows; the buffer never exceeds its '
+                       'capacity. The stepper compares the memory identity class of every real output slice (unsafe.SliceData against '
+                       'the internal buffer and the inputs) with the model, and holds/scribbles retained slices'),
+        'level_note': 'partial: Go memory and append semantics are modelled by identities and a capacity bound, not verified; ' + 'trusted: the stepper correspondence for process/pass/isTimeouted; the select loops and the deferred pass are covered by black-box runs and the regenerated skeleton facts',
+        'rule': 'as C03; additionally every output slice is classified buf/in/fresh by pointer identity and retained to the end',
+        'trusted_base': ['unsafe.SliceData pointer comparison in the harness'],
+        'assumptions': ['Go append within capacity writes in place; slices.Clone returns fresh memory'],
+    },
+    'C09': {
+        'lean_targets': ['Cqos.Props.C09'],
+        'theorems': ['Cqos.C09.join_step_emits', 'Cqos.C09.flags_mono', 'Cqos.C09.exact_step', 'Cqos.C09.c09_join_exact',
+                     'Cqos.C09.c09_untimed_no_tick', 'Cqos.C09.c09_unite_maximal', 'Cqos.C09.c09_tick_needs_timeout',
+                     'Cqos.C09.c09_passAt_at_emission', 'Cqos.C09.c09_passAt_at_release'],
+        'runs': [{'cmd': 'jstepper', 'args': ['-family', 'untimed']}, {'cmd': 'jstepper', 'args': ['-family', 'mixed']}],
+        'monitor_prefix': ['C09'],
+        'level': 'proof',
+        'level_text': ('Lean theorems: join - for every action list, every slice not emitted by a ticker firing, the closing of the '
+                       'input or Stop has exactly JoinSize elements (so without a timeout the batching is the unique greedy one); '
+                       'unite (copy mode) - the buffer is emitted before an input slice only if the slice would not fit, and after '
+                       'appending only when JoinSize is reached; timed - a ticker firing emits only if Timeout has elapsed since '
+                       'passAt, and every emission resets passAt to its own clock reading. Tied by the stepper (ticks at half / twice '
+                       'the timeout) and an independent greedy-batching monitor'),
+        'level_note': 'partial: the run-level maximality of unite in no-copy mode and the clock monotonicity are not proved, only the step-level facts; ' + 'trusted: the stepper correspondence for process/pass/isTimeouted; the select loops and the deferred pass are covered by black-box runs and the regenerated skeleton facts',
+        'rule': 'as C03, plus an untimed family; the monitor recomputes the greedy batching independently',
+        'trusted_base': [],
+        'assumptions': ['monotone clock (time.Now / time.Since)'],
+    },
+    'C10': {
+        'lean_targets': ['Cqos.Props.C10'],
+        'theorems': ['Cqos.C10.c10_interval_v2', 'Cqos.C10.c10_interval_v2_nonpositive', 'Cqos.C10.c10_interval_v2_errors',
+                     'Cqos.C10.c10_interval_v1', 'Cqos.C10.f_step', 'Cqos.C10.f_run', 'Cqos.C10.c10_passAt_le_oldest',
+                     'Cqos.C10.c10_flush'],
+        'runs': [{'cmd': 'pure', 'args': ['-family', 'c10']}, {'cmd': 'jstepper', 'args': ['-family', 'mixed']}],
+        'monitor_prefix': ['C10'],
+        'level': 'proof',
+        'level_text': ('Lean theorems: the interrupt interval tau satisfies 1 <= tau, tau*floor(100/inacc) <= Timeout, '
+                       '1 <= floor(100/inacc) <= 100 (v1: tau >= 10ms) and the errors are exactly the code\'s; for every action list '
+                       'with non-decreasing clock readings passAt is never later than the acceptance of the oldest buffered element '
+                       '(the timer is not reset per element), hence a ticker firing processed at a reading >= firstAt + Timeout '
+                       'flushes the buffer. calcInterruptInterval is tied by a full grid over inaccuracies 0..300 x boundary timeouts'),
+        'level_note': ('partial: the bound Timeout*(1+1/floor(100/inacc)) + latency additionally needs the ticker to fire every tau and a '
+                       'ready consumer - Go runtime facts, hypotheses here; ' + 'trusted: the stepper correspondence for process/pass/isTimeouted; the select loops and the deferred pass are covered by black-box runs and the regenerated skeleton facts'),
+        'rule': 'calcInterruptInterval (v2 join, v2 unite, v1 join) over all inaccuracies 0..300 x boundary timeouts + random; stepper tick scripts',
+        'trusted_base': [],
+        'assumptions': ['ticker fires every interruptInterval; scheduling latency bounded; monotone clock'],
+    },
+    'C11': {
+        'lean_targets': ['Cqos.Props.C11'],
+        'theorems': ['Cqos.C11.g_step', 'Cqos.C11.g_run', 'Cqos.C11.c11_whole', 'Cqos.C11.c11_always', 'Cqos.C11.c11_oversize'],
+        'runs': [{'cmd': 'jstepper', 'args': ['-family', 'mixed']}],
+        'monitor_prefix': ['C11'],
+        'level': 'proof',
+        'level_text': ('Lean theorem for every action list of the unite machine: the output slices are exactly the concatenations of '
+                       'consecutive groups of WHOLE accepted input slices (empty ones contribute nothing), at every moment and at '
+                       'termination; an input slice of at least JoinSize elements is emitted as a slice of its own after the buffer. '
+                       'Tied by the stepper with slice lengths 0, 1, <, =, > JoinSize and an independent whole-slice monitor'),
+        'level_note': 'trusted: the stepper correspondence for process/pass/isTimeouted; the select loops and the deferred pass are covered by black-box runs and the regenerated skeleton facts',
+        'rule': 'as C03',
+        'trusted_base': [],
+        'assumptions': [],
+    },
 }
